@@ -798,7 +798,9 @@ namespace bloch::runtime {
                         oss << "object[]";
                         break;
                     default:
-                        oss << "unknown";
+                        // long, boolean and the primitive arrays: labelled as everywhere else.
+                        // One shared label for them made such overloads hide each other.
+                        oss << typeKey(params[i]);
                         break;
                 }
             }
